@@ -33,5 +33,5 @@ def check(ctx):
     # "all instantiations of one definition yield one item" needs the shape comparator to recognise them as one shape: a generic parameter position
     # compares equal only through the parameter-index machinery (GenericsList), whose definitions are pinned as leaves
     from . import c03
-    with ctx.only(lambda k: k.startswith("ground/same-generic")):
+    with ctx.only(lambda k: k.startswith("ground/")):          # incl. the comparator as a whole: every position is compared with EACH side's own generics
         c03.comparator(ctx, "C05.5")
